@@ -669,7 +669,7 @@ pub fn build() -> Vec<DynType> {
          serde_bytes::ByteArray<4>, serde_bytes::ByteArray<0>, (serde_bytes::ByteArray<2>, u8), Option<Option<Option<u8>>>, Vec<Option<Option<Nat>>>, Option<()>, Option<Reserved>, Vec<Option<()>>,
          (FuncRef, FuncRefV2, ServRef), Vec<FuncRef>, BTreeMap<String, FuncRef>, (f32, f64, Vec<f32>), BTreeMap<(u8, String), Vec<Int>>, HashMap<(Int, Nat), String>, [Int; 0], [Vec<Nat>; 2]);
     // round-3 strengthening
-    reg!(v; SmallNat, SmallInt, Vec<SmallNat>, Vec<SmallInt>, Option<SmallNat>, BTreeMap<String, SmallNat>, (SmallNat, SmallInt), Vec<i128>, Vec<u128>, Option<i128>, BTreeMap<String, i128>, BTreeMap<Nat, Int>, BTreeMap<u16, Nat>, BTreeMap<String, Option<String>>, BTreeMap<String, Option<u8>>, BTreeMap<String, Vec<String>>);
+    reg!(v; SmallNat, SmallInt, Vec<SmallNat>, Vec<SmallInt>, Option<SmallNat>, BTreeMap<String, SmallNat>, (SmallNat, SmallInt), Vec<i128>, Vec<u128>, Option<i128>, BTreeMap<String, i128>, BTreeMap<Nat, Int>, BTreeMap<u16, Nat>, BTreeMap<String, Option<String>>, BTreeMap<String, Option<u8>>, BTreeMap<String, Vec<String>>, Vec<(Int, Int)>);
     v.extend(same_named_types());
     // names must be unique
     let mut seen = BTreeSet::new();
